@@ -11,8 +11,8 @@ from .. import xmlgen
 from ..runner import Case, Step, run_cases
 
 LEVELS = ["L0", "L1", "L2", "L3", "L4", "L5", "L6", "L7", "L8"]
-OWNER = {"L0": "global", "L1": "T:P.param", "L2": "T:P.local", "L3": "F:gf#b0", "L4": "F:gf#b1", "L5": "F:gf#b2",
-         "L6": "F:gf#it3", "L7": "bound0", "L8": "T:P.select#1"}
+OWNER = {"L0": "global", "L1": "T:P.param", "L2": "T:P.local", "L3": "F:gf/b0", "L4": "F:gf/b1", "L5": "F:gf/b2",
+         "L6": "F:gf/it3", "L7": "bound0", "L8": "T:P.select/1"}
 # use site -> scope chain (innermost first)
 CHAINS = {
     "G0": [], "G1": ["L0"], "SYS": ["L0"],
@@ -99,6 +99,7 @@ def observed(doc, v="v"):
 
 
 def run(rep, tier, seed):
+    rep.level = "fault_enumeration"
     rng = random.Random(seed * 1000003 + 7)
     quick = tier == "quick"
     subsets = []
@@ -179,6 +180,34 @@ def run(rep, tier, seed):
             rep.violation("C07:unqualified-name-in-query", "declared at %s: query 'E<> v >= 0' %s" % (sorted(S), "accepted" if ok1 else "rejected"), c)
         elif ok1 and "(IDENTIFIER v@global)" not in q[1]["props"][0]["dump"]:
             rep.violation("C07:unqualified-name-in-query-binding", "query 'E<> v >= 0' bound to %s" % q[1]["props"][0]["dump"], c)
+    # P.x is typed with P's arguments substituted, also through chains of partial instantiations
+    tmodel = xmlgen.simple_model(decl="const int K = 7;", params="const int M, const int L", tdecl="int[L, M] y; int[0, M + 1] z; int plain;",
+                                 system="D = P(4, 1);\nQ(const int M2) = P(M2, 2);\nR = Q(5);\nQ2(const int A, const int B) = P(B, A);\nS = Q2(0, 9);\n"
+                                        "Q3(const int C) = Q2(1, C);\nT = Q3(K);\nsystem D, R, S, T;")
+    want = {"D": ("(CONSTANT i 1)", "(CONSTANT i 4)"), "R": ("(CONSTANT i 2)", "(CONSTANT i 5)"), "S": ("(CONSTANT i 0)", "(CONSTANT i 9)"),
+            "T": ("(CONSTANT i 1)", "(IDENTIFIER K@global)")}
+    tc = Case("ptype", [Step("parse_doc", 0, "xml_buffer", 1, 0, tmodel),
+                        Step("query", 0, "", *["E<> %s.y >= 0 && %s.z >= 0 && %s.plain == 0" % (p, p, p) for p in want])], timeout=60)
+    for rep_i in range(3):
+        tr = run_cases([tc])[tc.id]
+        if tr["status"] != "ok":
+            rep.crash(tr, tc)
+            break
+        if tr["steps"][0]["errors"] or tr["steps"][0].get("exc"):
+            rep.inconclusive_case("member-type model rejected: %s" % tr["steps"][0]["errors"][:1])
+            break
+        for pname, q in zip(want, tr["steps"][1]["results"]):
+            rep.observe(("member-type", pname))
+            if q["nerr"] or not q["props"]:
+                rep.violation("C07:qualified-name:member-rejected", "query on %s.y rejected: %s" % (pname, q["errors"]), tc)
+                continue
+            mt = dict((d.split(" .")[-1].rstrip(")"), t) for d, t in q["props"][0]["member_types"])
+            lo, hi = want[pname]
+            wy = "<RANGE <INT> <UNKNOWN %s> <UNKNOWN %s>>" % (lo, hi)
+            wz = "<RANGE <INT> <UNKNOWN (CONSTANT i 0)> <UNKNOWN (PLUS %s (CONSTANT i 1))>>" % hi
+            if mt.get("y") != wy or mt.get("z") != wz:
+                rep.violation("C07:qualified-name:arguments-not-substituted", "%s.y has type %s and %s.z has type %s; with %s's arguments "
+                              "substituted they are %s and %s" % (pname, mt.get("y"), pname, mt.get("z"), pname, wy, wz), tc)
     rep.sample({"declared_at": sorted(cases[37][0]), "name": cases[37][1], "model": cases[37][2].steps[0].args[5].decode()[:1500]})
     rep.rule = ("the contested name declared at every subset of nine scope levels (global, template parameter, template "
                 "local, function parameter, block, nested block, iteration binder, quantifier binder, select binder; "
